@@ -17,7 +17,10 @@ EDGE_RULE = ("exhaustive: breadth-first exploration of the implementation's abst
              "middle of its lists, isolate), the extremes of the value types, and the same histories on the w* flavours (a non-Copy, heap-owning key "
              "type whose Hash has two values) and the z* flavours (zero-sized node and edge values). C03 also runs histories with two live node objects of one "
              "key under an identity-based connect contract (not modelled: nodes are keys in the model). Every third case of a sync flavour (chosen by a "
-             "hash of the case line) runs its requests on two helper threads in turn - the objects move between threads, nothing runs concurrently.")
+             "hash of the case line) runs its requests on two helper threads in turn - the objects move between threads, nothing runs concurrently. "
+             "Histories followed by edge loops (for statement or for_each) whose body disconnects, connects, isolates or queries; and, on the plain "
+             "flavours, histories in which the clone of an edge value panics inside connect / try_connect and the caller catches it (f* flavours: "
+             "the call has not happened, the lists are what they were).")
 
 NOT_YET = {}
 
@@ -64,7 +67,7 @@ SEARCH_RULE = ("enumerated: every connect sequence (insertion order matters) on 
                "(sparse, dense, DAG, ring, disconnected, self-loops, parallel edges). One case = one graph with all its requests; a request is "
                "non-trivial if it runs a traversal. distinct_nontrivial = number of graph cases. Every generator also produces: builder reuse "
                "(several searches on one builder object, retargeting, graph changes between two calls), the builder's configuration calls in every "
-               "order (kind~n, before or after the closure is attached, conflicting priority calls, transpose() called twice, a first target that is overwritten), a closure of the other kind installed first (the later call wins), stages that add an edge into the root after the builder was made, closures that start traversals of their own or ask questions while the outer traversal runs (read-only scripts; every nested answer is compared with the same question asked alone), root handles obtained in different ways (#via), "
+               "order (kind~n, before or after the closure is attached, conflicting priority calls, transpose() called twice, a first target that is overwritten), a closure of the other kind or of the same kind installed first (the later call wins), every search without a closure repeated with a for_each closure that only watches (same result), stages that add an edge into the root after the builder was made, closures that start traversals of their own or ask questions while the outer traversal runs (read-only scripts; every nested answer is compared with the same question asked alone), root handles obtained in different ways (#via), "
                "graphs of 900-1400 nodes, closed chains of 1100-1600 nodes (every fourth of 4300-4900), soak cases (one long successful search repeated 160 times on one thread), priority-first traversals over node values the closure changes while nodes are queued (C07, judged by the statement alone), two-helper-thread execution of every third sync-flavour case, hubs of degree up to 90, the extremes of the value types, and the "
                "searches/orderings on the w* (colliding key hashes) and z* (zero-sized values) flavours.")
 
